@@ -157,6 +157,13 @@ func (c *Ctx) RunCLIStrace(o CLIOpts, inject ...string) (*CLIResult, []Sys, stri
 	pre = append(pre, "--")
 	o.Prefix = append(pre, o.Prefix...)
 	res := c.RunCLI(o)
+	for _, l := range strings.Split(string(res.Stderr), "\n") {
+		// strace's own diagnostics (gopatch never prints this prefix): the trace and the exit status are unusable
+		if strings.HasPrefix(l, "strace: ") && !strings.Contains(l, "exited with") {
+			c.Flake("strace failed: " + l)
+			break
+		}
+	}
 	b, _ := os.ReadFile(logf.Name())
 	return res, ParseStrace(string(b)), string(b)
 }
